@@ -16,6 +16,7 @@ from ..monitor import call_real, describe_exc, reach
 
 ID = 'C07'
 LEVEL = 'exploration'
+DEBUG_TOGGLE = True  # runner flips the library debug flag every 97 monitored executions
 TECHNIQUE = 'runtime monitoring: relational (metamorphic) monitor over pairs of executions - the observation of a state and of the same world rotated by the harness\' own index arithmetic (1, 2, 3 quarter turns) must have equal deep encodings'
 LEVEL_TEXT = ('For every deterministic built-in observation function (direct and from_visibility forms) the observation of a '
               'state is compared with the observation of the world rotated by one, two and three clockwise quarter turns '
@@ -119,6 +120,8 @@ def exhaustive(ctx):
 
 
 def run(ctx):
+    from .. import custom_objects
+    custom_objects.enable(curtain=True)  # user-defined object types join the generators' pool (flags, not types, must decide)
     with reach(ctx, [observation_fs.from_visibility, grid_mod.Grid.subgrid, grid_mod.Grid.__mul__,
                      geometry_mod.Transform.__mul__, geometry_mod.Orientation.__mul__]):
         exhaustive(ctx)
@@ -140,5 +143,7 @@ def run(ctx):
 
 
 def replay(ctx, kind, payload):
+    from .. import custom_objects
+    custom_objects.enable(curtain=True)
     compare(ctx, enc.state_from_json(payload['state']), obsgen.area_from_json(payload['area']), payload['fn'],
             payload.get('via_visibility', False))
